@@ -176,7 +176,7 @@ func loadScenarios() ([]*scenario, error) {
 		return nil, fmt.Errorf("only %d runner scenarios found under %s", len(order), dir)
 	}
 	sort.Strings(order)
-	out := []*scenario{embeddedScenario()}
+	out := []*scenario{embeddedScenario(), recipientsScenario()}
 	for _, n := range order {
 		out = append(out, byName[n])
 	}
@@ -974,7 +974,7 @@ func main() {
 
 	// every process starts (process-cold round) with a different scenario; the embedded one and those that
 	// exercise lazily migrated / legacy flows, router tests and query groups come first
-	first := []string{"embedded", "router_tests", "legacy_subflow", "smart_groups", "all_actions", "subflow", "legacy_registration", "expirations", "two_questions", "webhook_results"}
+	first := []string{"embedded", "recipients", "router_tests", "legacy_subflow", "smart_groups", "all_actions", "subflow", "legacy_registration", "expirations", "two_questions", "webhook_results"}
 	rs := r.Fork("scenarios")
 	specs := make([]childSpec, nProc)
 	for p := 0; p < nProc; p++ {
@@ -989,6 +989,13 @@ func main() {
 				f = hx.Pick(rs, names)
 			}
 			list = append(list, f)
+			// the two embedded scenarios run in every process (once on a warm process too)
+			if f != "recipients" {
+				list = append(list, "recipients")
+			}
+			if f != "embedded" {
+				list = append(list, "embedded")
+			}
 			for len(list) < nRounds {
 				list = append(list, hx.Pick(rs, names))
 			}
